@@ -598,6 +598,34 @@ func GenLeaf(r *hx.Rng, kind string) []byte {
 			return Box(kind, kids) // QuickTime form
 		}
 		return Box(kind, Cat(vf(byte(r.Intn(2)), r32(r)&0xffffff), kids))
+	case "dac3":
+		body := r.Bytes(3, nil)
+		if r.Intn(4) == 0 {
+			body = Cat(make([]byte, r.Range(1, 3)), body)
+		}
+		return Box(kind, body)
+	case "dec3":
+		ns := r.Range(1, 3)
+		body := U16(uint16(r32(r)&0x1fff)<<3 | uint16(ns-1))
+		for i := 0; i < ns; i++ {
+			nds := 0
+			if r.Bool() {
+				nds = r.Range(1, 15)
+			}
+			b0 := byte(r.Intn(4))<<6 | byte(r.Intn(32))<<1
+			b1 := byte(r32(r))
+			b2 := byte(nds) << 1
+			body = append(body, b0, b1)
+			if nds > 0 {
+				body = append(body, b2|byte(r.Intn(2)), byte(r32(r)))
+			} else {
+				body = append(body, b2)
+			}
+		}
+		if r.Intn(3) == 0 {
+			body = append(body, r.Bytes(r.Range(1, 3), nil)...)
+		}
+		return Box(kind, body)
 	case "vttc":
 		var body []byte
 		for _, k := range []string{"vsid", "iden", "ctim", "sttg", "payl"} {
@@ -657,7 +685,7 @@ var GenKinds = []string{"ftyp", "styp", "free", "skip", "mdat", "mfhd", "tfhd", 
 	"smhd", "nmhd", "sthd", "mfro", "mehd", "tfra", "pssh",
 	"url ", "avcC", "btrt", "pasp", "colr", "clap", "schm", "cslg", "stsd", "dref", "avc1", "avc3", "hvc1", "hev1", "encv", "mp4a", "enca",
 	"senc", "emsg", "elng", "kind", "hvcC", "subs", "uuid", "sgpd",
-	"vttC", "vlab", "ctim", "iden", "sttg", "payl", "vtta", "vtte", "vsid", "data", "mime", "wvtt", "meta", "vttc"}
+	"vttC", "vlab", "ctim", "iden", "sttg", "payl", "vtta", "vtte", "vsid", "data", "mime", "wvtt", "meta", "vttc", "dac3", "dec3"}
 
 // Exhaustive returns well-formed boxes covering EVERY combination of the optional-field flag bits of the
 // boxes that have them (trun: 6 bits x version 0/1 x 0,1,3 samples; tfhd: 7 bits; tfdt, sidx, mvhd, tkhd,
